@@ -341,20 +341,41 @@ func c08B4(l *core.Ledger, r *rt, eps []*entryPoint) {
 		// single-node call with an error result: RPCCall
 		key := ep.key
 		found := false
+		// the select cases on this context's Done()
+		var doneEdges []sx.Edge
+		sx.AllInstrs(ep.fn, func(_ sx.Node, in ssa.Instruction) {
+			sel, isSel := in.(*ssa.Select)
+			if !isSel {
+				return
+			}
+			for i, st := range sel.States {
+				if st.Dir != types.RecvOnly {
+					continue
+				}
+				if cv, isDone := isDoneOf(st.Chan); isDone && sameCtx(cv, ep.ctx) {
+					if e, ok := selectCaseEdge(sel, i); ok {
+						doneEdges = append(doneEdges, e)
+					}
+				}
+			}
+		})
 		sx.AllInstrs(ep.fn, func(n sx.Node, in ssa.Instruction) {
 			ret, ok := in.(*ssa.Return)
-			if !ok {
+			if !ok || len(ret.Results) != 2 {
 				return
 			}
-			if !doneCaseDominates(ep.fn, ep.ctx, n) {
-				return
+			// one outcome per way of reaching this return (merged exits are split)
+			for _, c := range splitMerged(completion{at: ret, err: ret.Results[1], reply: ret.Results[0]}, 0) {
+				if !c.under(ep.fn, doneEdges) {
+					continue
+				}
+				found = true
+				ok2 := sx.All(sx.Origins(c.err), func(o sx.Origin) bool {
+					cl, isCall := o.V.(*ssa.Call)
+					return o.Kind == sx.KCall && isCall && cl.Call.IsInvoke() && cl.Call.Method.Name() == "Err" && cl.Call.Value == ssa.Value(ep.ctx)
+				})
+				l.Check(ok2, "C08-B4", key, ret.Pos(), "returns ctx.Err() on the context edge", "on the context edge the call returns an error other than its context's Err(): errors.Is(err, ctx.Err()) fails")
 			}
-			found = true
-			ok2 := sx.All(sx.Origins(ret.Results[1]), func(o sx.Origin) bool {
-				c, isCall := o.V.(*ssa.Call)
-				return o.Kind == sx.KCall && isCall && c.Call.IsInvoke() && c.Call.Method.Name() == "Err" && c.Call.Value == ssa.Value(ep.ctx)
-			})
-			l.Check(ok2, "C08-B4", key, ret.Pos(), "returns ctx.Err() on the context edge", "on the context edge the call returns an error other than its context's Err(): errors.Is(err, ctx.Err()) fails")
 		})
 		if !found {
 			l.Bad("C08-B4", key, ep.fn.Pos(), "no return inside a ctx.Done() case: the call cannot end on context expiry")
